@@ -140,12 +140,15 @@ def run(ctx, labels=None):
         fac_op = lst[0][2][0]
         # factor = Div(from(i16::MAX), max_abs)
         d = fa.single_def(op_place(fac_op)["l"]) if op_place(fac_op) else None
-        # follow copies
+        # follow copies, and a read through a reference to the variable (`*(&factor)`)
         seen = 0
-        while d is not None and d[2] == "assign" and d[3]["k"] == "use" and seen < 6:
+        while d is not None and d[2] == "assign" and d[3]["k"] == "use" and seen < 8:
             seen += 1
             pl = op_place(d[3]["op"])
             d = fa.single_def(pl["l"]) if pl else None
+            if pl is not None and pl["p"] == ["*"] and d is not None and d[2] == "assign" and \
+                    d[3]["k"] == "ref" and not d[3]["place"]["p"]:
+                d = fa.single_def(d[3]["place"]["l"])
         ok = d is not None and d[2] == "assign" and d[3]["k"] == "binop" and d[3]["op"] == "Div"
         maxabs_local = None
         if ok:
